@@ -23,7 +23,7 @@ LEVEL_TEXT = ("Lean 4 theorems about the executable model of GroupCoordinator, f
               "the first (witness). Tied to the source by the differential run plus a monitor with its own join log.")
 TECHNIQUE = "Lean 4 proof (invariant over all reachable states) + Go/Lean differential correspondence + property monitor"
 
-PROFILE = G.profile(weights={"join": 14, "converge": 3, "leave": 5, "failover": 6, "failover_lazy": 3, "tick": 6, "sync": 8,
+PROFILE = G.profile(etcd_quick=4, etcd_thorough=30, weights={"join": 14, "converge": 3, "leave": 5, "failover": 6, "failover_lazy": 3, "tick": 6, "sync": 8,
                              "commit": 1, "fetch": 0, "fail": 1, "meta": 0},
                     start_converged=50, clients=[2, 2, 3, 3, 4])
 RULE = ("membership histories dominated by joins/leaves/expiries and failovers in the middle of rebalances, generated from "
